@@ -191,6 +191,64 @@ def gen_cluster(rng, boundary, big=False):
                 explicit_pos=rng.random() < 0.5, extra_col=rng.random() < 0.5)
 
 
+def gen_cluster_chain(rng):
+    """large frames (40-120 features) in which a cluster hangs together by SINGLE links a little
+    shorter than the separation (0.95 ... 0.999 of it): a string of close beads along one axis with
+    such gaps, and short rods of features beside each gap (not connected to the string) - an
+    approximate or pruned neighbour search loses exactly these links"""
+    dim = rng.choice([2, 2, 3])
+    S = rng.choice([32, 64, 128, 256])                # separation in units of 1/8 (quotients float-exact)
+    ax = rng.randrange(dim)                           # the string runs along this axis
+    ay = (ax + 1) % dim
+    h = rng.choice([S // 4, S // 2, (3 * S) // 4])
+    pts = []
+    x = 0
+    segs = rng.randint(3, 6)
+    for sgi in range(segs):
+        for _ in range(rng.randint(6, 20)):
+            p = [0] * dim
+            p[ax] = x
+            p[ay] = rng.choice([0, 0, 1, -1]) * (S // 16)
+            pts.append(p)
+            x += h
+        x -= h
+        if sgi < segs - 1:
+            g = S - rng.randint(1, max(1, (S * 3) // 64))          # 0.953 ... 0.997 of the separation
+            # a rod BESIDE the gap (1.5 separations away from the string), parallel to the string or
+            # across it: its features have coordinates between those of the two ends of the link
+            for side in ([1], [-1], [1, -1])[rng.randrange(3)]:
+                k = rng.randint(4, 14)
+                along = rng.random() < 0.7
+                for j in range(k):
+                    q = [0] * dim
+                    if along:
+                        q[ax] = x + 1 + (j * (g - 2)) // max(1, k - 1)
+                        q[ay] = side * (3 * S) // 2
+                    else:
+                        q[ax] = x + g // 2 + rng.choice([-1, 0, 1])
+                        q[ay] = side * ((3 * S) // 2 + j * (S // 2))
+                    pts.append(q)
+                if rng.random() < 0.6:
+                    # two stacks of features just inside the two ends of the link (so that a space
+                    # partition puts a cut right behind each end)
+                    for xs in (x + 1 + rng.randint(0, 1), x + g - 1 - rng.randint(0, 1)):
+                        for j in range(rng.randint(8, 18)):
+                            q = [0] * dim
+                            q[ax] = xs
+                            q[ay] = side * ((3 * S) // 2 + (j * 3 * S) // 8)
+                            pts.append(q)
+            x += g
+    fno = rng.choice([0, 3, 17])
+    rows = [[fno] + p for p in pts]
+    rng.shuffle(rows)
+    n = len(rows)
+    return dict(stream="clusterbig", dim=dim, sep=["%d/8" % S] * dim, scalar_sep=rng.random() < 0.8,
+                rows=[[r[0]] + ["%d/8" % v for v in r[1:]] for r in rows],
+                index=rng.choice([list(range(n)), rng.sample(range(0, 3 * n + 5), n)]),
+                t_column="frame", drop_frame=rng.random() < 0.3,
+                explicit_pos=rng.random() < 0.5, extra_col=False)
+
+
 def gen_prox(rng):
     dim = rng.choice([2, 2, 3])
     n = rng.choice([1, 2, 3, 5, 9, 17, 30])
@@ -231,6 +289,8 @@ def gen_cases(ctx):
         yield gen_cluster(ctx.rng("boundary", i), boundary=True)
     for i in range(ctx.n(40, 500)):
         yield gen_cluster(ctx.rng("clusterbig", i), boundary=i % 3 == 0, big=True)
+    for i in range(ctx.n(80, 800)):
+        yield gen_cluster_chain(ctx.rng("clusterchain", i))
     for i in range(ctx.n(200, 3000)):
         yield gen_prox(ctx.rng("prox", i))
     for i in range(ctx.n(60, 800)):
